@@ -224,16 +224,19 @@ def _configs(tier):
     return [
         # name, constants
         ("raw-fine-70000", dict(Max=70000, B0Set="{129}" if q else "{129, 2, 255, 122}", MSet="{0, 1}", Fine="TRUE",
-                                WithFol="TRUE", Mode='"raw"', NEnc=1)),
+                                WithFol="TRUE", Mode='"raw"', NEnc=1, NRaw=1)),
         ("raw-fine-100", dict(Max=100, B0Set="{2}" if q else "{2, 137}", MSet="{0, 1}", Fine="TRUE", WithFol="TRUE",
-                              Mode='"raw"', NEnc=1)),
+                              Mode='"raw"', NEnc=1, NRaw=1)),
         ("raw-table-70000", dict(Max=70000, B0Set=QUICK_B0 if q else allb0, MSet="{0, 1}", Fine="FALSE",
-                                 WithFol="FALSE", Mode='"raw"', NEnc=1)),
+                                 WithFol="FALSE", Mode='"raw"', NEnc=1, NRaw=1)),
         ("enc-table", dict(Max=70000, B0Set=QUICK_B0 if q else allb0, MSet="{0, 1}", Fine="FALSE", WithFol="FALSE",
-                           Mode='"enc"', NEnc=1)),
+                           Mode='"enc"', NEnc=1, NRaw=1)),
         ("enc-reuse", dict(Max=70000, B0Set="{130}", MSet="{1}" if q else "{0, 1}", Fine="FALSE", WithFol="FALSE",
-                           Mode='"enc"', NEnc=2)),
-    ]
+                           Mode='"enc"', NEnc=2, NRaw=1)),
+    ] + ([] if q else [
+        ("raw-pairs-70000", dict(Max=70000, B0Set="{130}", MSet="{0}", Fine="FALSE", WithFol="FALSE", Mode='"raw"',
+                                 NEnc=1, NRaw=2)),
+    ])
 
 
 def run(ck):
